@@ -18,6 +18,9 @@ let run (path : string) =
      while true do
        let line = input_line ic in
        (match split_on ' ' line with
+        | "A" :: _ ->
+          (* a packet decoded earlier packs to something else after another datagram was decoded *)
+          fail "C22" "clause9 decoded-packet-changed-by-a-later-decode" line
         | "D" :: raws :: cls :: rest ->
           incr total;
           let raw = bytes_of_hex raws in
